@@ -106,6 +106,24 @@ def main():
 def finish(meta, src, name, keep):
     out = VERIF / "seeded" / name
     out.mkdir(parents=True, exist_ok=True)
+    # a re-run with --skip-tests keeps the earlier test-suite result; checks accumulate
+    old = out / "meta.json"
+    if old.exists():
+        try:
+            o = json.loads(old.read_text())
+            for k in ("tests", "tests_ok"):
+                if k not in meta and k in o:
+                    meta[k] = o[k]
+                    meta["tests_from_earlier_run"] = True
+            merged = dict(o.get("checks") or {})
+            merged.update(meta.get("checks") or {})
+            if meta.get("checks") is not None:
+                meta["checks"] = merged
+                meta["caught_by"] = [c for c, v in merged.items() if v["rc"] == 1 and v["violations"]]
+                meta["caught_with_failing_input"] = [c for c, v in merged.items()
+                                                     if any("no-failing-input-found" not in l for l in v["violations"])]
+        except Exception:  # noqa: BLE001
+            pass
     for f in ("patch.diff", "demo.py", "notes.md"):
         if (src / f).exists():
             shutil.copy(src / f, out / f)
